@@ -38,6 +38,7 @@ type schedTask struct {
 	Undo   []schedOutcome `json:"undo,omitempty"`
 	OnKill int            `json:"onkill,omitempty"` // when released with a dying tomb: 0 planned outcome, 1 Retry{}, 2 error
 	At     int            `json:"at,omitempty"`     // pre-scheduled: minutes after start (0 = not scheduled)
+	Msg    int            `json:"msg,omitempty"`    // which error text its failures carry (texts are shared between tasks on purpose)
 }
 
 type schedOp struct {
@@ -123,11 +124,12 @@ type schedCounters struct {
 	undoOK    []int
 	waitAbort []bool // returned Wait while being aborted (modelling corner, excluded from exact counts)
 	failedMsg map[int][]string
+	failedUndo map[int]bool
 }
 
 func newSchedCounters(n int) *schedCounters {
 	return &schedCounters{attempts: map[string]int{}, doStarts: make([]int, n), doOK: make([]int, n),
-		undoStart: make([]int, n), undoOK: make([]int, n), waitAbort: make([]bool, n), failedMsg: map[int][]string{}}
+		undoStart: make([]int, n), undoOK: make([]int, n), waitAbort: make([]bool, n), failedMsg: map[int][]string{}, failedUndo: map[int]bool{}}
 }
 
 type schedRun struct {
@@ -255,8 +257,11 @@ func (h *schedRun) decide(idx int, phase string, killed bool, t *Task) error {
 	}
 	switch out.K {
 	case "err":
-		msg := fmt.Sprintf("fail-%d-%s-%d", idx, phase, att)
+		msg := fmt.Sprintf("boom-%d", h.c.Tasks[idx].Msg)
 		h.cnt.failedMsg[idx] = append(h.cnt.failedMsg[idx], msg)
+		if phase == "undo" {
+			h.cnt.failedUndo[idx] = true
+		}
 		h.logf("    %s(%d) returns error (killed=%v)", phase, idx, killed)
 		if len(h.blocked) > 0 {
 			h.failWhileBlocked = true
@@ -794,7 +799,7 @@ func schedGen(t *rapid.T, o schedGenOpts) schedCase {
 	c.NLanes = rapid.IntRange(0, 4).Draw(t, "nlanes")
 	dens := rapid.IntRange(1, 6).Draw(t, "density")
 	for i := 0; i < n; i++ {
-		ts := schedTask{Kind: rapid.SampledFrom([]int{0, 0, 1, 2, 3, 4}).Draw(t, "kind"), Chg: rapid.IntRange(0, c.NChanges-1).Draw(t, "chg")}
+		ts := schedTask{Kind: rapid.SampledFrom([]int{0, 0, 1, 2, 3, 4}).Draw(t, "kind"), Chg: rapid.IntRange(0, c.NChanges-1).Draw(t, "chg"), Msg: rapid.IntRange(0, 2).Draw(t, "msg")}
 		for j := 0; j < i; j++ {
 			if c.Tasks[j].Chg == ts.Chg && rapid.IntRange(0, 9).Draw(t, "edge") < dens {
 				ts.Waits = append(ts.Waits, j)
